@@ -13,7 +13,7 @@ PROP = "C10"
 TECHNIQUE = (
     "grammar snapshot (productions, minimum depths, recursive set, weights, per-class metadata) compared after every "
     "call of the bounded exhaustive exploration (E1 create/map, E2 mutate/crossover, including failing and backtracking "
-    "calls and infeasible limits); differential re-enumeration of the creatable language before/after the history"
+    "calls and infeasible limits); differential re-enumeration of the creatable language before/after the history, with a weight update that fails half-way in between; every history of three geml estimator fits over two data sets (shared production lists unchanged, grammar independent of earlier fits)"
 )
 RULE = (
     "units = C01's units over all five representations plus fault units (infeasible depth limits, exhausted stack "
